@@ -22,8 +22,8 @@ st = hyp.st
 _TR = {}
 
 
-def traced(op, fb, n1, n2, fast, size):
-    key = (op, fb, n1, n2, fast, size)
+def traced(op, fb, n1, n2, fast, size, fixo=False):
+    key = (op, fb, n1, n2, fast, size, fixo)
     if key in _TR:
         return _TR[key]
     import functional_algorithms as fa
@@ -34,7 +34,7 @@ def traced(op, fb, n1, n2, fast, size):
     names = ["x%d" % i for i in range(n)]
     ns = {"apmath": apmath, "dt": dt}
     if op == "renormalize":
-        body = "return apmath.renormalize(ctx, [%s], functional=True, fast=%r, size=%r)" % (", ".join(names), fast, size)
+        body = "return apmath.renormalize(ctx, [%s], functional=True, fast=%r, size=%r%s)" % (", ".join(names), fast, size, ", fix_overflow=True" if fixo else "")
     elif op in ("add", "subtract", "multiply"):
         body = "return apmath.%s(ctx, [%s], [%s], functional=True, fast=%r, size=%r)" % (op, ", ".join(names[:n1]), ", ".join(names[n1:]), fast, size)
     elif op == "square":
@@ -49,7 +49,7 @@ def traced(op, fb, n1, n2, fast, size):
     return f
 
 
-def call(op, variant, fb, seq1, seq2, fast, size):
+def call(op, variant, fb, seq1, seq2, fast, size, fixo=False):
     """Returns list of numpy scalars."""
     from functional_algorithms import apmath, utils
 
@@ -58,13 +58,13 @@ def call(op, variant, fb, seq1, seq2, fast, size):
     b = [flt.bits_scalar(b_, f) for b_ in seq2]
     if variant == "traced":
         args = [np.array([v], dtype=f.ftype) for v in a + b]
-        out = traced(op, fb, len(a), len(b), fast, size)(*args)
+        out = traced(op, fb, len(a), len(b), fast, size, fixo)(*args)
         out = out if isinstance(out, (list, tuple)) else [out]
         return [np.asarray(o, dtype=f.ftype).reshape(-1)[0] for o in out]
     ctx = utils.NumpyContext(f.ftype)
     functional = variant == "functional"
     if op == "renormalize":
-        out = apmath.renormalize(ctx, list(a), functional=functional, fast=fast, size=size)
+        out = apmath.renormalize(ctx, list(a), functional=functional, fast=fast, size=size, **({"fix_overflow": True} if fixo else {}))
     elif op in ("add", "subtract", "multiply"):
         out = getattr(apmath, op)(ctx, list(a), list(b), functional=functional, fast=fast, size=size)
     else:
@@ -140,7 +140,7 @@ def check(case):
         if sum((abs(flt.bits2frac(b, f)) for b in allb), Fraction(0)) > L4:
             return "out-of-domain", []
         try:
-            r = call(op, variant, fb, s1, s2, fast, size)
+            r = call(op, variant, fb, s1, s2, fast, size, case.get("fixo", False))
         except Exception as e:
             return "in", [(tag + "/raises-" + type(e).__name__, "%s(%s, %s) raised %r" % (op, show(s1), show(s2), e))]
         if not all(np.isfinite(v) for v in r):
@@ -165,7 +165,7 @@ def check(case):
             # does the size limit truncate?  decide from the unlimited result
             try:
                 if op == "renormalize":
-                    full = call(op, variant, fb, s1, [], fast, None)
+                    full = call(op, variant, fb, s1, [], fast, None, case.get("fixo", False))
                 else:
                     # unlimited normal form of the concatenation (renormalize itself has no implicit limit)
                     cat = list(s1) + [(b ^ f.sign_mask) if op == "subtract" else b for b in s2]
@@ -183,7 +183,7 @@ def check(case):
                 # second pass
                 rb = [flt.scalar_bits(v) for v in r]
                 try:
-                    r2 = call(op, variant, fb, rb, [], fast, size)
+                    r2 = call(op, variant, fb, rb, [], fast, size, case.get("fixo", False))
                 except Exception as e:
                     return "in", [(tag + "/raises-" + type(e).__name__, "second pass raised %r" % (e,))]
                 probs2 = normal_form_problems(r2, f, functional, n_in)
@@ -300,6 +300,7 @@ def cases(draw):
         case["size"] = draw(st.sampled_from([None, None, None, 1, 2, 3, 4, 5, 6]))
         if fast and not fast_ok(case["seq1"], f):
             case["fast"] = False
+        case["fixo"] = draw(st.booleans())  # renormalize(..., fix_overflow=True): same claims, no overflow is generated
     elif op in ("add", "subtract"):
         case["seq1"] = draw(expansion(f, max_len=3))
         case["seq2"] = draw(expansion(f, max_len=3))
